@@ -4,6 +4,7 @@ and the kernel's per-socket counters from /proc/net/udp."""
 import asyncio
 import logging
 import socket
+import sys
 import warnings
 from typing import Any, Callable, Dict, List, Optional
 
@@ -91,9 +92,13 @@ class UdpRig:
     def install(self, loop) -> None:
         logging.getLogger("aioswitcher").addHandler(self._handler)
         warnings.simplefilter("always")
+        if sys.flags.bytes_warning:
+            warnings.filterwarnings("error", category=BytesWarning, module=r"aioswitcher(\..*)?$")
         self._old_showwarning = warnings.showwarning
 
         def showwarning(message, category, filename, lineno, file=None, line=None):
+            if category is BytesWarning and "aioswitcher" not in str(filename):
+                return      # the harness's own bytes/str comparisons under -b are not the library's
             self.log.events.append(("warning", f"{category.__name__}:{message}"))
 
         warnings.showwarning = showwarning
